@@ -92,7 +92,9 @@ VAR = {"up": upper_var, "lo": lower_var, "cap": cap_var}
 def make_oracle(im):
     import itertools
     def oracle(case, out):
-        t = case[0].split(); fn, loc = t[1], ("" if t[2] == "-" else t[2])
+        t = case[0].split()
+        if t[1] == "stale": t = [t[0]] + t[3:]
+        fn, loc = t[1], ("" if t[2] == "-" else t[2])
         cps = CR.dec(b"" if t[4] == "-" else bytes.fromhex(t[4]))
         o = out[0].split()
         try:
@@ -149,6 +151,29 @@ def gen(ctx):
                     if quick and r.random() > 0.34: continue
                     for cps in ([x, y], [0x391, x, y, 0x61], [y, x]):
                         cases.append(["cf %s %s %d %s" % (fn, loc, r.choice([0, 4]), hx(CR.enc(cps)))])
+    # a context-sensitive code point followed by TWO or three marks and then a letter (the context rules skip runs of marks)
+    trip = []
+    for x in ctx_chars:
+        for m1 in marks:
+            for m2 in marks:
+                for loc in ("-", "tr", "lt"):
+                    trip.append((x, m1, m2, loc))
+    r.shuffle(trip)
+    for x, m1, m2, loc in trip[:(2500 if quick else len(trip))]:
+        tail = r.choice([[0x3B1], [0x61], [0x391], []])
+        mid = [m1, m2] + ([r.choice(marks)] if r.random() < 0.3 else [])
+        for fn in (("lo",) if quick else ("up", "lo", "cap")):
+            cases.append(["cf %s %s %d %s" % (fn, loc, r.choice([0, 4]), hx(CR.enc([r.choice([0x391, 0x61, 0x49]), x] + mid + tail)))])
+    # the string ends with a context-sensitive code point and stale bytes lie behind its end (what gp_str_slice or a
+    # shorter copy into a used buffer leave there): they are not part of the string
+    stales = [[0x3B1], [0x61], [0x307], [0x300], [0x301, 0x3B1], [0x345], [0x69, 0x307]]
+    for x in ctx_chars:
+        for st in stales:
+            for loc in ("-", "tr", "lt"):
+                for fn in ("up", "lo", "cap"):
+                    if quick and r.random() > 0.5: continue
+                    body = r.choice([[x], [0x391, x], [0x61, x], [0x49, x]])
+                    cases.append(["cf stale %s %s %s %d %s" % (hx(CR.enc(st)), fn, loc, r.choice([0, 4, 16]), hx(CR.enc(body)))])
     # ordinary Greek words: final sigma in word-final position
     for w in ("ΟΔΥΣΣΕΥΣ", "ΣΟΦΟΣ ΑΝΗΡ", "ΑΣ. ΒΣ, ΓΣ", "ΦΙΛΟΣ", "Σ", "ΑΣΑ ΣΑΣ", "ΛΌΓΟΣ"):
         cases.append(["cf lo - 4 " + hx(w.encode())])
